@@ -44,6 +44,7 @@ class Gen:
         self.open = []
         self.counter = 0
         self.dict_prims_with_defaults = False
+        self.json_safe = False
 
     # ------------------------------------------------------------------ schemas (IR)
     def fresh(self, prefix):
@@ -542,6 +543,19 @@ class Gen:
                 return r.choice(LONG_POOL)
             k = r.randint(1, 9)
             return r.choice([1, -1]) * (2 ** (7 * k - 1) + r.choice([-1, 0, 1])) if x < 0.8 else r.randint(-2 ** 63, 2 ** 63 - 1)
+        if self.json_safe and n in ("float", "double"):
+            # JSON has no NaN/Infinity; "compared by value" needs binary32-exact values under float and exactly representable integers
+            pool = [0.0, -0.0, 1.0, -1.5, 0.5, 0.25, 1.401298464324817e-45, 16777216.0, 3.4028234663852886e38, 0.1 if n == "double" else 0.125, 7, -3, 2 ** 24]
+            if n == "double":
+                pool += [1 / 3, 5e-324, 1.7976931348623157e308, 2 ** 53, -2 ** 40]
+            x = r.random()
+            if x < 0.6:
+                return r.choice(pool)
+            if n == "float":
+                v = struct.unpack("<f", struct.pack("<I", r.getrandbits(32)))[0]
+            else:
+                v = struct.unpack("<d", struct.pack("<Q", r.getrandbits(64)))[0]
+            return v if (v == v and abs(v) != float("inf")) else 1.0
         if n == "double":
             x = r.random()
             if x < 0.5:
